@@ -423,11 +423,12 @@ def c10(prop, tier):
 
 def c09(prop, tier):
     fields = ["tinyfield", "bn254"] if tier == "quick" else ["tinyfield", "babybear", "koalabear"] + CURVES
-    jobs = [Job("core", "./constraint", ["prelude_sym.go", "c09_core.go"], {"PKGNAME": "constraint"})]
+    jobs = [Job("core", "./constraint", ["prelude_sym.go", "c09_core.go"], {"PKGNAME": "constraint"}),
+            Job("witness-stream-accounting", "./backend/witness", ["prelude_sym.go", "c09_witness.go"], {"PKGNAME": "witness"})]
     for f in fields:
         jobs.append(Job("coeff-" + f, "./constraint/" + f, ["prelude_sym.go", "prelude_fr_sym.go", "c09_coeff.go"], {"PKGNAME": "cs", "FRPKG": fr_pkg(f)}, model="gfp:13"))
     return run_property(prop, tier, jobs,
-                        title="C09 (in-repo binary layers only): section header, calldata varint codec and coefficient table codec round-trip for symbolic contents, re-encoding reproduces the same bytes, sizes are as reported.",
+                        title="C09 (in-repo binary layers only): section header, calldata varint codec and coefficient table codec round-trip for symbolic contents, re-encoding reproduces the same bytes, sizes are as reported; witness.ReadFrom on a stream that holds more than the witness (trailers of 0, 1, 40, 200 bytes; symbolic header; abstract byte-moving vector codec, 0..3 elements) reports exactly the bytes it took from the caller's reader and WriteTo exactly the bytes it handed to the writer.",
                         design_ref="DESIGN.md §3 C09",
                         assumptions=["encoding/binary is interpreted from its SSA", "element words are opaque machine words for the coefficient codec (it only copies words)"],
                         outside=["CBOR body, intcomp-compressed levels/instructions, curve point codecs, proving/verifying keys, behavioural equivalence of whole decoded systems (third-party table-driven codecs)",
@@ -459,10 +460,12 @@ def c20(prop, tier):
     curves = ["bn254"] if tier == "quick" else CURVES
     jobs = [Job("plonk-blinding-" + c, "./backend/plonk/" + c, ["prelude_sym.go", "prelude_fr_sym.go", "c20_plonk.go"],
                 {"PKGNAME": "plonk", "CURVEPKG": "github.com/consensys/gnark-crypto/ecc/" + c, "FRPKG": fr_pkg(c)}) for c in curves]
-    reach = {"verifHarness_randomPolynomial": ["coefficients-independent", "second-polynomial-differs", "random-polynomial"],
+    for c in curves:
+        jobs.append(Job("plonk-bsb22-blinding-" + c, "./backend/plonk/" + c, ["prelude_sym.go", "prelude_fr_sym.go", "c20_bsb22.go"], dict(plonk_subst(c), CRVNAME=c)))
+    reach = {"verifHarness_bsb22HintBlinding": ["bsb22-blinding"], "verifHarness_randomPolynomial": ["coefficients-independent", "second-polynomial-differs", "random-polynomial"],
              "verifHarness_blindingOrders": ["all-blinding-coefficients-nonzero", "orders"], "verifHarness_blindedCoefficients": ["blinded-coefficients"]}
     return run_property(prop, tier, jobs,
-                        title="C20 (PLONK prover, data-flow of the blinding; Groth16 in-circuit commitments are masked - E-CS MASKED query on circuits with 1..3 commitments compiled by the real R1CS builder): SetRandom is a fresh symbolic draw per call; blinding polynomials have degrees 1,1,1,2 with independent coefficients; the blinded coefficient vector is exactly p + b*(X^n-1).",
+                        title="C20 (PLONK prover, data-flow of the blinding; Groth16 in-circuit commitments are masked - E-CS MASKED query on circuits with 1..3 commitments compiled by the real R1CS builder): SetRandom is a fresh symbolic draw per call; blinding polynomials have degrees 1,1,1,2 with independent coefficients; the blinded coefficient vector is exactly p + b*(X^n-1); PLONK in-circuit (BSB22) commitments: the real bsb22Hint on hand-built instances (0..3 public inputs, 1..3 committed constraints, 0..2 constraints after the commitment constraint): committed rows hold the committed values, all other rows but the two blinded ones are zero, and two runs on the same values CAN give different polynomials (a blinded row survives).",
                         design_ref="DESIGN.md §3 C20",
                         assumptions=["fr.Element.SetRandom returns an independent uniform draw (stub: fresh symbol)"],
                         outside=["Groth16 r/s blinding in Prove (goroutine pipeline)", "entropy statements", "the mask hint's own randomness (hints.Randomize draws from crypto/rand)", "commitBlindingFactor / evaluateBlinded (MSM / Horner on gnark-crypto polynomials)"],
@@ -489,6 +492,24 @@ def c15(prop, tier):
                         design_ref="DESIGN.md §3 C15",
                         assumptions=["message lengths are enumerated (slice lengths are concrete in the executor); message bytes are symbolic"],
                         outside=["the compression / permutation functions (tens of thousands of table-lookup constraints over a 254-bit field)", "Poseidon2 widths other than 2 and 3 (the native implementation has none)", "SHA-3's absorbingFixedWidth block selection", "constraint-level soundness of the variable-length padding (the stand-in evaluates the honest computation)", "Merkle and Fiat-Shamir helpers"])
+
+
+def c12(prop, tier):
+    params = [("q1021-p53", {"NATIVEQ": "1021", "QBITSNATIVE": "10", "EMMOD": "53", "EMNBLIMBS": "2"})]
+    if tier != "quick":
+        params += [("q1021-p23", {"NATIVEQ": "1021", "QBITSNATIVE": "10", "EMMOD": "23", "EMNBLIMBS": "2"}),
+                   ("q2039-p61", {"NATIVEQ": "2039", "QBITSNATIVE": "11", "EMMOD": "61", "EMNBLIMBS": "2"})]
+    jobs = []
+    for name, sub in params:
+        for entry in ("verifHarness_emulatedLinear", "verifHarness_emulatedMul"):
+            jobs.append(Job("emulated-%s-%s" % (entry.split("_")[1], name), "./std/math/emulated", ["prelude_sym.go", "c12_emulated.go"], dict(sub, PKGNAME="emulated"), entries=[entry], timeout_ms=60000, maxpaths=60000))
+    return run_property(prop, tier, jobs,
+                        title="C12 (narrow slice): the real emulated.Field methods against a native-field stand-in GF(q) with machine arithmetic modulo q.",
+                        design_ref="DESIGN.md §3 C12",
+                        finding_matcher=essa_matcher,
+                        assumptions=["Schwartz-Zippel / commitment binding: the deferred random-point test establishes the polynomial identity over the native field"],
+                        outside=["everything else"],
+                        expect_reach={"verifHarness_emulatedLinear": ["emulated-linear"], "verifHarness_emulatedMul": ["emulated-mul"]})
 
 
 def c13(prop, tier):
